@@ -96,6 +96,10 @@ type Exec struct {
 	lockSnap    *State
 	allocKinds  map[string]bool
 	axiomText   map[string]string
+	effRecvType types.Type
+	effSubst    map[*types.TypeParam]types.Type
+	relSnap     map[string]*State
+	acqSnap     map[string]*State
 	spawns      []spawned
 	inSpawn     bool
 	methodVals  map[string]methodVal
@@ -116,7 +120,7 @@ type methodVal struct {
 
 func NewExec(p *Program, smtStr bool) *Exec {
 	return &Exec{prog: p, vc: NewVC(smtStr), obIndex: map[string]*Obligation{}, init0: map[string]Term{}, noteSet: map[string]bool{},
-		dropped: map[string]bool{}, externs: map[string]bool{}, inlined: map[string]bool{}, havocs: map[string]bool{}, maxInl: 6, safety: true, globalVal: map[string]Term{}, allocKinds: map[string]bool{}, axiomText: map[string]string{}, methodVals: map[string]methodVal{}, litVals: map[string]*ast.FuncLit{}}
+		dropped: map[string]bool{}, externs: map[string]bool{}, inlined: map[string]bool{}, havocs: map[string]bool{}, maxInl: 6, safety: true, globalVal: map[string]Term{}, allocKinds: map[string]bool{}, axiomText: map[string]string{}, relSnap: map[string]*State{}, acqSnap: map[string]*State{}, methodVals: map[string]methodVal{}, litVals: map[string]*ast.FuncLit{}}
 }
 
 func (e *Exec) note(format string, a ...any) {
@@ -698,8 +702,9 @@ func (e *Exec) forStmt(x *ast.ForStmt, st *State, fr *Frame) Flow {
 	e.checkInvs(st, fr, ord, invs, "entry", entry)
 	eff := e.effectsOf(fr, x.Body, x.Post, x.Cond)
 	head := st.clone()
-	e.havocEffects(head, fr, eff)
+	e.loopHavoc(head, fr, eff, ord)
 	e.assumeInvs(head, fr, invs, entry)
+	headSnap := head.clone()
 	var exits []*State
 	body := head.clone()
 	if x.Cond != nil {
@@ -723,6 +728,7 @@ func (e *Exec) forStmt(x *ast.ForStmt, st *State, fr *Frame) Flow {
 	}
 	if !after.dead() {
 		e.checkInvs(after, fr, ord, invs, "preserved", entry)
+		e.loopFrameCheck(headSnap, after, fr, ord, e.prog.pos(x))
 	}
 	restoreNames(fr, saved)
 	exits = append(exits, f.brk...)
@@ -755,6 +761,8 @@ func (e *Exec) rangeStmt(x *ast.RangeStmt, st *State, fr *Frame) Flow {
 		ik := fmt.Sprintf("$i!%d", int(x.Pos()))
 		e.set(st, ik, Term{"0", tInt})
 		fr.names[fmt.Sprintf("$i%d", ord)] = ik
+		fr.names[fmt.Sprintf("idx%d", ord)] = ik // spec-visible name of the hidden range counter of loop <ord>
+		fr.ntypes[fmt.Sprintf("idx%d", ord)] = tInt
 		n := coll.S
 		if coll.T.K == KSlice {
 			n = e.seqLen(coll)
@@ -770,7 +778,7 @@ func (e *Exec) rangeStmt(x *ast.RangeStmt, st *State, fr *Frame) Flow {
 		e.checkInvs(st, fr, ord, invs, "entry", entry)
 		eff := e.effectsOf(fr, x.Body)
 		head := st.clone()
-		e.havocEffects(head, fr, eff)
+		e.loopHavoc(head, fr, eff, ord)
 		iv := e.havocKey(head, ik, tInt)
 		e.assume(head, fmt.Sprintf("(and (<= 0 %s) (<= %s %s))", iv.S, iv.S, nn))
 		if x.Key != nil {
@@ -780,6 +788,7 @@ func (e *Exec) rangeStmt(x *ast.RangeStmt, st *State, fr *Frame) Flow {
 			bind(x.Value, head, e.seqGet(coll, iv.S))
 		}
 		e.assumeInvs(head, fr, invs, entry)
+		headSnap := head.clone()
 		ex := head.clone()
 		e.assume(ex, fmt.Sprintf("(>= %s %s)", iv.S, nn))
 		body := head.clone()
@@ -802,6 +811,7 @@ func (e *Exec) rangeStmt(x *ast.RangeStmt, st *State, fr *Frame) Flow {
 				bind(x.Value, after, e.seqGet(coll, nv.S))
 			}
 			e.checkInvs(after, fr, ord, invs, "preserved", entry)
+			e.loopFrameCheck(headSnap, after, fr, ord, e.prog.pos(x))
 		}
 		restoreNames(fr, saved)
 		return Flow{norm: e.merge(append([]*State{ex}, f.brk...)), rets: f.rets}
@@ -823,7 +833,7 @@ func (e *Exec) rangeStmt(x *ast.RangeStmt, st *State, fr *Frame) Flow {
 		e.checkInvs(st, fr, ord, invs, "entry", entry)
 		eff := e.effectsOf(fr, x.Body)
 		head := st.clone()
-		e.havocEffects(head, fr, eff)
+		e.loopHavoc(head, fr, eff, ord)
 		seen := e.havocKey(head, sk, seenT)
 		dom := e.mapDom(head, coll)
 		// seen is a subset of dom
@@ -831,6 +841,7 @@ func (e *Exec) rangeStmt(x *ast.RangeStmt, st *State, fr *Frame) Flow {
 		_ = kq
 		e.assume(head, fmt.Sprintf("(forall ((k!s %s)) (=> (select %s k!s) (select %s k!s)))", ks, seen.S, dom))
 		e.assumeInvs(head, fr, invs, entry)
+		headSnap := head.clone()
 		// exit: seen == dom
 		ex := head.clone()
 		e.assume(ex, fmt.Sprintf("(= %s %s)", seen.S, dom))
@@ -853,6 +864,7 @@ func (e *Exec) rangeStmt(x *ast.RangeStmt, st *State, fr *Frame) Flow {
 			cur := e.get(after, sk, seenT)
 			e.set(after, sk, Term{fmt.Sprintf("(store %s %s true)", cur.S, kv.S), seenT})
 			e.checkInvs(after, fr, ord, invs, "preserved", entry)
+			e.loopFrameCheck(headSnap, after, fr, ord, e.prog.pos(x))
 		}
 		restoreNames(fr, saved)
 		return Flow{norm: e.merge(append([]*State{ex}, f.brk...)), rets: f.rets}
@@ -1068,4 +1080,43 @@ func (e *Exec) selectStmt(x *ast.SelectStmt, st *State, fr *Frame) Flow {
 	e.vc.Fact(fmt.Sprintf("(>= %s 0)", choice))
 	out.norm = e.merge(norms)
 	return out
+}
+
+// loopHavoc: what is arbitrary at the loop head. With a `loop N modifies` clause the heap part is exactly the listed
+// targets (checked for one iteration by loopFrameCheck); otherwise the syntactic effects of the body.
+func (e *Exec) loopHavoc(head *State, fr *Frame, eff *Effects, ord int) {
+	if fr.top && fr.contract != nil {
+		if mods, ok := fr.contract.LoopMods[ord]; ok {
+			for k, t := range eff.locals {
+				if _, ok := head.vars[k]; ok {
+					e.havocKey(head, k, t)
+				}
+			}
+			for _, m := range mods {
+				e.havocTarget(m, head, fr, nil)
+			}
+			if eff.time {
+				e.advanceTime(head, "0")
+			}
+			// lock bookkeeping changes inside the body are balanced
+			for k, t := range eff.heap {
+				if strings.HasPrefix(k, "$held!") {
+					e.havocKey(head, k, t)
+				}
+			}
+			return
+		}
+	}
+	e.havocEffects(head, fr, eff)
+}
+
+func (e *Exec) loopFrameCheck(head, after *State, fr *Frame, ord int, pos string) {
+	if !fr.top || fr.contract == nil {
+		return
+	}
+	mods, ok := fr.contract.LoopMods[ord]
+	if !ok {
+		return
+	}
+	e.checkFrameAgainst(mods, head, []*State{after}, fr, fmt.Sprintf("loop%d-frame", ord), pos)
 }
